@@ -546,9 +546,18 @@ pub fn guarded<T>(f: impl FnOnce() -> T) -> Result<T, (String, String)> {
                 std::process::exit(2);
             }
             // path inside the library's tree, wherever that tree is checked out
-            let loc = match loc.find("/src/") {
-                Some(i) if !loc.contains("/.cargo/") && !loc.contains("/rustc/") => loc[i + 1..].to_string(),
-                _ => loc,
+            let loc = if let Some(i) = loc.find("/registry/src/") {
+                // a dependency of the library: name the crate, not where this machine keeps its sources
+                let rest = &loc[i + "/registry/src/".len()..];
+                match rest.find('/') {
+                    Some(j) => format!("dependency:{}", &rest[j + 1..]),
+                    None => rest.to_string(),
+                }
+            } else {
+                match loc.find("/src/") {
+                    Some(i) if !loc.contains("/rustc/") => loc[i + 1..].to_string(),
+                    _ => loc,
+                }
             };
             Err((loc, panic_message(&e)))
         }
